@@ -20,6 +20,9 @@ def main(argv=None):
     except ValueError:
         seed = 0
 
+    # toasty's "use all CPUs" default consults SLURM_NPROCS: keep nested parallelism small
+    os.environ.setdefault("SLURM_NPROCS", "2")
+
     from . import build
 
     build.ensure_built()
